@@ -129,7 +129,15 @@ impl Expr {
                         "lwrd" => (value as u64 & 0xffff) as i64,
                         "hwrd" => ((value as u64 & 0xffff0000) >> 16) as i64,
                         "page" => ((value as u64 & 0x1f0000) >> 16) as i64,
-                        "exp2" => 1 << value,
+                        "exp2" => match u32::try_from(value).ok().and_then(|n| 1i64.checked_shl(n)) {
+                            Some(power) => power,
+                            None => {
+                                return Err(ExprRunError::ArithmeticError(format!(
+                                    "exp2 argument out of range (0 - 63): {}",
+                                    value
+                                )))
+                            }
+                        },
                         "log2" => {
                             let mut i = 0;
                             let mut value = value as u64;
